@@ -5,11 +5,11 @@
 (* values, fired rewrites.  One state per observation; TLC evaluates the   *)
 (* verdict operator of the L1 module the observation belongs to.           *)
 (***************************************************************************)
-EXTENDS TaskGraph, Collection, Optimizer, MapBlocksInfo, SourceIO, Json, IOUtils, TLCExt
+EXTENDS TaskGraph, Collection, Optimizer, MapBlocksInfo, SourceIO, Naming, RandomRealization, Json, IOUtils, TLCExt
 Cases == ndJsonDeserialize(IOEnv.CASES)
 VARIABLE i
-Init == i = 0 /\ g = Chain3 /\ st = S0 /\ om = M0("n") /\ mbsnap = <<>> /\ mbseen = {} /\ iophase = "constructing" /\ ioreads = {}
-Next == i < Len(Cases) /\ i' = i + 1 /\ UNCHANGED <<g, st, om, mbsnap, mbseen, iophase, ioreads>>
+Init == i = 0 /\ g = Chain3 /\ st = S0 /\ om = M0("n") /\ mbsnap = <<>> /\ mbseen = {} /\ iophase = "constructing" /\ ioreads = {} /\ content = <<>> /\ cache = <<>> /\ ncfg = "x" /\ rng = 0 /\ seeds = <<>> /\ seen = <<>>
+Next == i < Len(Cases) /\ i' = i + 1 /\ UNCHANGED <<g, st, om, mbsnap, mbseen, iophase, ioreads, content, cache, ncfg, rng, seeds, seen>>
 
 Verdict(c) ==
   CASE c.fn = "graph"   -> GraphVerdict(c)
@@ -24,13 +24,18 @@ Verdict(c) ==
     [] c.fn = "unknown" -> UnknownVerdict(c)
     [] c.fn = "entry" -> EntryVerdict(c)
     [] c.fn = "io" -> IOVerdict(c)
+    [] c.fn = "naming" -> MintVerdict(c)
+    [] c.fn = "history" -> HistoryVerdict(c)
+    [] c.fn = "identity" -> IdentityVerdict(c)
+    [] c.fn = "realization" -> RealizationVerdict(c)
     [] c.fn = "store" -> StoreVerdict(c)
     [] c.fn = "block_info" -> (IF BlockInfoVerdict(c) # "ok" THEN BlockInfoVerdict(c)
                                ELSE IF c.got.kind = "raised" THEN "ok-computation-raised"
                                ELSE IF ~SameValue(c.got, c.expect) THEN "map-blocks-value-differs" ELSE "ok")
     [] OTHER -> "unknown-fn"
 
-IsOk(v) == v = "ok" \/ (Len(v) > 2 /\ SubSeq(v, 1, 3) = "ok-")
+\* verdicts "ok-<reason>" (nothing claimed for this observation) are reported too; the harness counts them
+IsOk(v) == v = "ok"
 Checked == i = 0 \/ LET v == Verdict(Cases[i]) IN (IsOk(v) \/ PrintT(<<"REJECT", Cases[i].id, v>>))
 AllConsumed == PrintT(<<"CONSUMED", TLCGet("stats").diameter - 1, Len(Cases)>>)
 =============================================================================
